@@ -10,6 +10,16 @@ SIM_NOTE = ("trusted: the simulator harness (kernel, choice tape, simulated netw
             "<=8 heights and <=8 views per height per run")
 TECH = "deterministic simulation with fault injection: seeded search over schedules/fault sequences of real dbft instances, invariants per step and over the history, replayable minimised traces"
 
+NOTES = {
+ "C17": "trusted: testing/synctest (fake clock, quiescence), the baton scheduler and the oracle in hooks/simulation_test.go.txt; real code: the example program, package dbft, internal/consensus|crypto|merkle, timer; the seed fixes the scenario and the baton choices, not the runtime's select choice (measured divergence is reported)",
+ "C18": "trusted: testing/synctest fake clock, the reference deadline model in sim/c18_test.go; real code: timer/timer.go",
+ "C20": "trusted: TLC (tla2tools.jar), the .launch parser and configuration generator in tla/c20.py; real artefacts: the five .tla specifications; sampled walks only",
+}
+TECHS = {
+ "C17": "deterministic simulation: real program in a synctest bubble (fake clock) with a seeded goroutine scheduler, progress and agreement oracle",
+ "C18": "deterministic simulation: real timer under a fake clock, seeded operation sequences against a reference deadline model, with shrinking",
+ "C20": "seeded random simulation of the TLA+ specifications (TLC -simulate) with the specs' own fault actions; invariants checked on every visited state",
+}
 CHECKS = {
  "C01": ("5.1", "Many thousands of seeded whole-cluster simulations (1-10 validators, <=F Byzantine / split-brain / amnesia "
          "identities, hostile network, early timers, validator-set changes, anti-MEV off/on/switching) with the agreement "
@@ -36,6 +46,9 @@ CHECKS.update({
  "C15": ("5.15", "Every proposal of an honest-code primary is compared with an expectation recomputed from the clock reading and pool content the library obtained in that very call, under clock skew, backward/forward clock steps, unaligned clocks and increments 1, 7, 1000, 1e6, 7e6, 1e9, 999999937 ns; the primary's own block must carry the same values."),
  "C16": ("5.16", "Fault-free synchronous simulations with the maximum-block-time extension at ratios 1, 1.5, 2, 3, 8 (and off), N=1..7, transaction arrival processes (never / before the minimum / inside the extended wait / bursts) re-armed at every decided height: proposal spacing judged on simulated send instants (tolerance 4*delta), prompt proposal inside the OnNewTransaction call, no change-view/recovery request from a node whose pool is empty, no subscription without the extension."),
  "C11": ("5.11", "Half of the evaluations are hostile cluster runs in which, at tape-chosen points, one node is given an input that an independent classifier labels inadmissible (index outside the list, past height, proposal from a non-primary, proposal/response of a lower view, response from the primary, pre-commit while anti-MEV is off, unrequested transaction, timeout of another epoch) or a payload it already holds: whole-state fingerprint (exported tables, unexported state and future-message cache through the verif accessor, simulated timer) unchanged except the sender's last-seen entry, no broadcast (a recovery message is allowed for redeliveries), no timer call. The other half are API fuzz sequences (300-600 calls, 1-4 instances, arbitrary well-typed payloads, rejecting verification callbacks, failing ProcessBlock/ProcessPreBlock, validator set / own index / watch-only flag changing at Reset). Every call, organic or injected, runs under recover() with a development-mode logger, so DPanic assertions count as panics."),
+ "C17": ("5.17", "The real example program (initNodes, updatePublicKeys, every node's Run loop, real timer.Timer, real ECDSA) runs for 60-120 simulated seconds inside a testing/synctest bubble under a seeded baton scheduler that picks which parked goroutine proceeds at every library log call; 1-7 validators, 0-2 watch-only nodes, optional blocked validator; every validator must reach at least half (a quarter with a blocked validator) of duration/5s heights and all nodes must approve the same blocks. Same-seed trace divergence (runtime select choice) is measured and reported; the oracle holds under every schedule."),
+ "C18": ("5.18", "Real timer.Timer in a testing/synctest bubble (exact fake clock), tape-generated sequences of 3-40 Reset/Extend/sleep/poll/wait operations with zero, short and long durations, against a reference deadline model: never early, delivered exactly at the deadline to a waiting reader, immediate for zero duration, Height/View of the latest reset, nothing armed earlier is read before the new deadline. Fully deterministic; failing sequences shrink to a handful of operations."),
+ "C20": ("5.20", "TLC simulation mode (seeded random walks, depth <= 100) over each of the five shipped specifications with configurations generated from the .launch files in the working tree, invariants TypeOK, InvTwoBlocksAccepted[Advanced], InvFaultNodesCount; quick: shipped all-good configuration + 2 seed-chosen fault configurations per spec, thorough: all 13 fault-set pairs x MaxView 1,2. Sampled, not exhaustive: exhaustive TLC would be a different technique."),
 })
 PLANNED = {}
 NOT_APPLICABLE = {
@@ -57,7 +70,9 @@ m = {
   "add_only": True,
  },
  "engines": [
-  {"name": "verifsim", "path": "sim/", "serves_properties": sorted(CHECKS.keys()),
+  {"name": "bubble17", "path": "hooks/simulation_test.go.txt", "serves_properties": ["C17"], "kind_free_text": "the real example program inside a testing/synctest bubble with a seeded baton scheduler (overlay-added test entry point)"},
+  {"name": "tlcsim", "path": "tla/c20.py", "serves_properties": ["C20"], "kind_free_text": "TLC simulation mode driver: configuration generator from .launch files, seeded random walks, trace parsing"},
+  {"name": "verifsim", "path": "sim/", "serves_properties": sorted(k for k in CHECKS.keys() if k not in ("C17", "C20")),
    "kind_free_text": "discrete-event deterministic simulator of whole dbft clusters: choice tape (one seed), simulated clock/timer/network/application, Byzantine adversary, oracles, shrinker, replay files"},
  ],
  "checks": [],
@@ -72,10 +87,10 @@ for pid in sorted(CHECKS):
      "thorough_cmd": "./check %s thorough" % pid,
      "evidence_file": "/verif/evidence/%s.json" % pid,
      "replay_cmd_template": "./check --replay {path}",
-     "engine": "verifsim",
+     "engine": {"C17": "bubble17", "C20": "tlcsim"}.get(pid, "verifsim"),
      "level_claimed": {"category": "exploration", "text": text, "design_ref": "DESIGN.md section " + ref},
-     "level_note": SIM_NOTE,
-     "technique": TECH,
+     "level_note": NOTES.get(pid, SIM_NOTE),
+     "technique": TECHS.get(pid, TECH),
     })
 for pid in sorted(list(NOT_APPLICABLE) + list(PLANNED)):
     m["not_applicable"].append({"property_id": pid, "reason": NOT_APPLICABLE.get(pid) or PLANNED[pid]})
